@@ -266,6 +266,8 @@ def mk_app(fn, args=(), kw=()):
                 return b0
             if p0 == none and p1 == none and idx == Const(0):
                 return App("getitem", (b0, none))
+        if isinstance(base, App) and base.fn == "getitem" and len(base.args) == 2 and base.args[1] == Const(None) and idx == Const(0):
+            return base.args[0]      # x[None][0] = x  (x[None, :] is normalised to x[None])
         if isinstance(base, Tup) and is_const(idx):
             i = const_of(idx)
             if isinstance(i, int) and -len(base.items) <= i < len(base.items):
